@@ -14,6 +14,12 @@
 //!   nfrombig(B B) nnew(I U) nfromnum(I) nzero none nnan nadd nmul nneg nminus nflip naddas nmulas
 //!   nfloor nispos nisnan nfromstr(S) ntostr neq ncmp nclone nsetcopy
 //! Stack ops: dup swap over drop out
+//! Registers (object histories: the SAME object is observed and mutated repeatedly, never cloned or re-created):
+//!   sto        pop a value into a new register (index = number of registers so far)
+//!   @<k>       push a handle to register k; pure operations borrow the register, in-place operations
+//!              (b*as, bminus, n*as, nminus, nflip, bsetcopy, nsetcopy) mutate it and push the handle back;
+//!              `out` renders the register without consuming it
+//!   bsetcopy nsetcopy   (target source): target.set_copy(&source)
 use hyeong::number::big_number::BigNum;
 use hyeong::number::num::Num;
 use std::cmp::Ordering;
@@ -30,6 +36,7 @@ enum V {
     Bool(bool),
     Ord(Option<Ordering>),
     Err(String),
+    R(usize),
 }
 
 fn render(v: &V) -> String {
@@ -50,6 +57,7 @@ fn render(v: &V) -> String {
             }
         ),
         V::Err(e) => format!("e|{}", e),
+        V::R(k) => format!("r|{}", k),
     }
 }
 
@@ -69,11 +77,143 @@ fn parse_big(tok: &str) -> BigNum {
 struct Vm {
     st: Vec<V>,
     out: Vec<String>,
+    regs: Vec<V>,
 }
 
 impl Vm {
     fn pop(&mut self) -> V {
         self.st.pop().expect("value stack underflow")
+    }
+    fn rb<'a>(&'a self, v: &'a V) -> &'a BigNum {
+        match v {
+            V::B(b) => b,
+            V::R(k) => match &self.regs[*k] {
+                V::B(b) => b,
+                _ => panic!("HARNESS: register does not hold a BigNum"),
+            },
+            V::Err(e) => panic!("library call returned Err({}) where a BigNum was required", e),
+            _ => panic!("HARNESS: expected BigNum"),
+        }
+    }
+    fn rn<'a>(&'a self, v: &'a V) -> &'a Num {
+        match v {
+            V::N(n) => n,
+            V::R(k) => match &self.regs[*k] {
+                V::N(n) => n,
+                _ => panic!("HARNESS: register does not hold a Num"),
+            },
+            _ => panic!("HARNESS: expected Num"),
+        }
+    }
+    /// pure binary operation on BigNums (operands may be register handles: borrowed, not consumed)
+    fn pure_b2(&mut self, f: impl FnOnce(&BigNum, &BigNum) -> V) {
+        let b = self.pop();
+        let a = self.pop();
+        let r = f(self.rb(&a), self.rb(&b));
+        self.st.push(r);
+    }
+    fn pure_b1(&mut self, f: impl FnOnce(&BigNum) -> V) {
+        let a = self.pop();
+        let r = f(self.rb(&a));
+        self.st.push(r);
+    }
+    fn pure_n2(&mut self, f: impl FnOnce(&Num, &Num) -> V) {
+        let b = self.pop();
+        let a = self.pop();
+        let r = f(self.rn(&a), self.rn(&b));
+        self.st.push(r);
+    }
+    fn pure_n1(&mut self, f: impl FnOnce(&Num) -> V) {
+        let a = self.pop();
+        let r = f(self.rn(&a));
+        self.st.push(r);
+    }
+    /// in-place operation: the target (first operand) is mutated; a register target stays in its register
+    fn mut_b2(&mut self, f: impl FnOnce(&mut BigNum, &BigNum)) {
+        let b = self.pop();
+        let a = self.pop();
+        match a {
+            V::R(k) => {
+                if let V::R(j) = b {
+                    if j == k {
+                        panic!("HARNESS: aliasing target and source");
+                    }
+                }
+                let mut x = match std::mem::replace(&mut self.regs[k], V::Bool(false)) {
+                    V::B(x) => x,
+                    _ => panic!("HARNESS: register does not hold a BigNum"),
+                };
+                f(&mut x, self.rb(&b));
+                self.regs[k] = V::B(x);
+                self.st.push(V::R(k));
+            }
+            V::B(mut x) => {
+                f(&mut x, self.rb(&b));
+                self.st.push(V::B(x));
+            }
+            V::Err(e) => panic!("library call returned Err({}) where a BigNum was required", e),
+            _ => panic!("HARNESS: expected BigNum"),
+        }
+    }
+    fn mut_b1(&mut self, f: impl FnOnce(&mut BigNum)) {
+        let a = self.pop();
+        match a {
+            V::R(k) => {
+                match &mut self.regs[k] {
+                    V::B(x) => f(x),
+                    _ => panic!("HARNESS: register does not hold a BigNum"),
+                }
+                self.st.push(V::R(k));
+            }
+            V::B(mut x) => {
+                f(&mut x);
+                self.st.push(V::B(x));
+            }
+            V::Err(e) => panic!("library call returned Err({}) where a BigNum was required", e),
+            _ => panic!("HARNESS: expected BigNum"),
+        }
+    }
+    fn mut_n2(&mut self, f: impl FnOnce(&mut Num, &Num)) {
+        let b = self.pop();
+        let a = self.pop();
+        match a {
+            V::R(k) => {
+                if let V::R(j) = b {
+                    if j == k {
+                        panic!("HARNESS: aliasing target and source");
+                    }
+                }
+                let mut x = match std::mem::replace(&mut self.regs[k], V::Bool(false)) {
+                    V::N(x) => x,
+                    _ => panic!("HARNESS: register does not hold a Num"),
+                };
+                f(&mut x, self.rn(&b));
+                self.regs[k] = V::N(x);
+                self.st.push(V::R(k));
+            }
+            V::N(mut x) => {
+                f(&mut x, self.rn(&b));
+                self.st.push(V::N(x));
+            }
+            _ => panic!("HARNESS: expected Num"),
+        }
+    }
+    fn mut_n1(&mut self, f: impl FnOnce(&mut Num)) {
+        let a = self.pop();
+        match a {
+            V::R(k) => {
+                match &mut self.regs[k] {
+                    V::N(x) => f(x),
+                    _ => panic!("HARNESS: register does not hold a Num"),
+                }
+                self.st.push(V::R(k));
+            }
+            V::N(mut x) => {
+                f(&mut x);
+                self.st.push(V::N(x));
+            }
+            _ => panic!("HARNESS: expected Num"),
+        }
     }
     fn b(&mut self) -> BigNum {
         match self.pop() {
@@ -82,6 +222,7 @@ impl Vm {
             _ => panic!("HARNESS: expected BigNum"),
         }
     }
+    #[allow(dead_code)]
     fn n(&mut self) -> Num {
         match self.pop() {
             V::N(n) => n,
@@ -126,14 +267,19 @@ impl Vm {
                 return;
             }
         }
+        if let Some(rest) = tok.strip_prefix('@') {
+            let k: usize = rest.parse().expect("register index");
+            assert!(k < self.regs.len(), "HARNESS: no such register");
+            self.st.push(V::R(k));
+            return;
+        }
         if let Some(rest) = tok.strip_prefix('S') {
             self.st.push(V::S(rest.replace('~', " ")));
             return;
         }
         if let Some(base) = tok.strip_prefix("btostr:") {
             let base: usize = base.parse().unwrap();
-            let a = self.b();
-            self.st.push(match a.to_string_base(base) {
+            self.pure_b1(|a| match a.to_string_base(base) {
                 Ok(s) => V::S(s),
                 Err(e) => V::Err(format!("{:?}", e)),
             });
@@ -150,101 +296,28 @@ impl Vm {
         }
         match tok {
             // ---- BigNum
-            "badd" => {
-                let b = self.b();
-                let a = self.b();
-                self.st.push(V::B(&a + &b));
-            }
-            "bsub" => {
-                let b = self.b();
-                let a = self.b();
-                self.st.push(V::B(&a - &b));
-            }
-            "bmul" => {
-                let b = self.b();
-                let a = self.b();
-                self.st.push(V::B(&a * &b));
-            }
-            "bdiv" => {
-                let b = self.b();
-                let a = self.b();
-                self.st.push(V::B(&a / &b));
-            }
-            "brem" => {
-                let b = self.b();
-                let a = self.b();
-                self.st.push(V::B(&a % &b));
-            }
-            "bgcd" => {
-                let b = self.b();
-                let a = self.b();
-                self.st.push(V::B(BigNum::gcd(&a, &b)));
-            }
-            "bneg" => {
-                let a = self.b();
-                self.st.push(V::B(-&a));
-            }
-            "bminus" => {
-                let mut a = self.b();
-                a.minus();
-                self.st.push(V::B(a));
-            }
-            "beq" => {
-                let b = self.b();
-                let a = self.b();
-                self.st.push(V::Bool(a == b));
-            }
-            "bcmp" => {
-                let b = self.b();
-                let a = self.b();
-                self.st.push(V::Ord(a.partial_cmp(&b)));
-            }
-            "baddas" => {
-                let b = self.b();
-                let mut a = self.b();
-                a += &b;
-                self.st.push(V::B(a));
-            }
-            "bsubas" => {
-                let b = self.b();
-                let mut a = self.b();
-                a -= &b;
-                self.st.push(V::B(a));
-            }
-            "bmulas" => {
-                let b = self.b();
-                let mut a = self.b();
-                a *= &b;
-                self.st.push(V::B(a));
-            }
-            "bdivas" => {
-                let b = self.b();
-                let mut a = self.b();
-                a /= &b;
-                self.st.push(V::B(a));
-            }
-            "bremas" => {
-                let b = self.b();
-                let mut a = self.b();
-                a %= &b;
-                self.st.push(V::B(a));
-            }
+            "badd" => self.pure_b2(|a, b| V::B(a + b)),
+            "bsub" => self.pure_b2(|a, b| V::B(a - b)),
+            "bmul" => self.pure_b2(|a, b| V::B(a * b)),
+            "bdiv" => self.pure_b2(|a, b| V::B(a / b)),
+            "brem" => self.pure_b2(|a, b| V::B(a % b)),
+            "bgcd" => self.pure_b2(|a, b| V::B(BigNum::gcd(a, b))),
+            "bneg" => self.pure_b1(|a| V::B(-a)),
+            "bminus" => self.mut_b1(|a| a.minus()),
+            "beq" => self.pure_b2(|a, b| V::Bool(a == b)),
+            "bcmp" => self.pure_b2(|a, b| V::Ord(a.partial_cmp(b))),
+            "baddas" => self.mut_b2(|a, b| *a += b),
+            "bsubas" => self.mut_b2(|a, b| *a -= b),
+            "bmulas" => self.mut_b2(|a, b| *a *= b),
+            "bdivas" => self.mut_b2(|a, b| *a /= b),
+            "bremas" => self.mut_b2(|a, b| *a %= b),
             "bnew" => {
                 let i = self.i();
                 self.st.push(V::B(BigNum::new(i)));
             }
-            "bispos" => {
-                let a = self.b();
-                self.st.push(V::Bool(a.is_pos()));
-            }
-            "biszero" => {
-                let a = self.b();
-                self.st.push(V::Bool(a.is_zero()));
-            }
-            "btoint" => {
-                let a = self.b();
-                self.st.push(V::U(a.to_int() as usize));
-            }
+            "bispos" => self.pure_b1(|a| V::Bool(a.is_pos())),
+            "biszero" => self.pure_b1(|a| V::Bool(a.is_zero())),
+            "btoint" => self.pure_b1(|a| V::U(a.to_int() as usize)),
             "bfromstring" => {
                 let s = self.s();
                 self.st.push(match BigNum::from_string(s) {
@@ -252,12 +325,11 @@ impl Vm {
                     Err(e) => V::Err(format!("{:?}", e)),
                 });
             }
-            "bclone" => {
-                let a = self.b();
+            "bclone" => self.pure_b1(|a| {
                 let mut c = BigNum::zero();
-                c.set_copy(&a);
-                self.st.push(V::B(c));
-            }
+                c.set_copy(a);
+                V::B(c)
+            }),
             // ---- Num
             "nfrombig" => {
                 let q = self.b();
@@ -276,78 +348,28 @@ impl Vm {
             "nzero" => self.st.push(V::N(Num::zero())),
             "none" => self.st.push(V::N(Num::one())),
             "nnan" => self.st.push(V::N(Num::nan())),
-            "nadd" => {
-                let b = self.n();
-                let a = self.n();
-                self.st.push(V::N(&a + &b));
-            }
-            "nmul" => {
-                let b = self.n();
-                let a = self.n();
-                self.st.push(V::N(&a * &b));
-            }
-            "nneg" => {
-                let a = self.n();
-                self.st.push(V::N(-&a));
-            }
-            "nminus" => {
-                let mut a = self.n();
-                a.minus();
-                self.st.push(V::N(a));
-            }
-            "nflip" => {
-                let mut a = self.n();
-                a.flip();
-                self.st.push(V::N(a));
-            }
-            "naddas" => {
-                let b = self.n();
-                let mut a = self.n();
-                a += &b;
-                self.st.push(V::N(a));
-            }
-            "nmulas" => {
-                let b = self.n();
-                let mut a = self.n();
-                a *= &b;
-                self.st.push(V::N(a));
-            }
-            "nfloor" => {
-                let a = self.n();
-                self.st.push(V::B(a.floor()));
-            }
-            "nispos" => {
-                let a = self.n();
-                self.st.push(V::Bool(a.is_pos()));
-            }
-            "nisnan" => {
-                let a = self.n();
-                self.st.push(V::Bool(a.is_nan()));
-            }
+            "nadd" => self.pure_n2(|a, b| V::N(a + b)),
+            "nmul" => self.pure_n2(|a, b| V::N(a * b)),
+            "nneg" => self.pure_n1(|a| V::N(-a)),
+            "nminus" => self.mut_n1(|a| a.minus()),
+            "nflip" => self.mut_n1(|a| a.flip()),
+            "naddas" => self.mut_n2(|a, b| *a += b),
+            "nmulas" => self.mut_n2(|a, b| *a *= b),
+            "nfloor" => self.pure_n1(|a| V::B(a.floor())),
+            "nispos" => self.pure_n1(|a| V::Bool(a.is_pos())),
+            "nisnan" => self.pure_n1(|a| V::Bool(a.is_nan())),
             "nfromstr" => {
                 let s = self.s();
                 self.st.push(V::N(Num::from_string(s)));
             }
-            "ntostr" => {
-                let a = self.n();
-                self.st.push(V::S(a.to_string()));
-            }
-            "neq" => {
-                let b = self.n();
-                let a = self.n();
-                self.st.push(V::Bool(a == b));
-            }
-            "ncmp" => {
-                let b = self.n();
-                let a = self.n();
-                self.st.push(V::Ord(a.partial_cmp(&b)));
-            }
-            "nclone" => {
-                let a = self.n();
+            "ntostr" => self.pure_n1(|a| V::S(a.to_string())),
+            "neq" => self.pure_n2(|a, b| V::Bool(a == b)),
+            "ncmp" => self.pure_n2(|a, b| V::Ord(a.partial_cmp(b))),
+            "nclone" => self.pure_n1(|a| {
                 let mut c = Num::zero();
-                c.set_copy(&a);
-                self.st.push(V::N(c));
-            }
+                c.set_copy(a);
+                V::N(c)
+            }),
             // ---- stack
             "dup" => {
                 let a = self.pop();
@@ -372,8 +394,18 @@ impl Vm {
             }
             "out" => {
                 let a = self.pop();
-                self.out.push(render(&a));
+                let text = match &a {
+                    V::R(k) => render(&self.regs[*k]),
+                    _ => render(&a),
+                };
+                self.out.push(text);
             }
+            "sto" => {
+                let a = self.pop();
+                self.regs.push(a);
+            }
+            "bsetcopy" => self.mut_b2(|a, b| a.set_copy(b)),
+            "nsetcopy" => self.mut_n2(|a, b| a.set_copy(b)),
             other => panic!("HARNESS: unknown token {:?}", other),
         }
     }
@@ -389,6 +421,7 @@ fn main() {
         let mut vm = Vm {
             st: Vec::new(),
             out: Vec::new(),
+            regs: Vec::new(),
         };
         let r = catch_unwind(AssertUnwindSafe(|| {
             for tok in line.split(' ') {
